@@ -2,6 +2,7 @@ package vc
 
 import (
 	"fmt"
+	"go/token"
 	"go/types"
 	"sort"
 
@@ -66,11 +67,16 @@ func (x *Exec) SiteKeys(fn *ssa.Function) []string {
 	li := x.loops(fn)
 	for _, lp := range li.Loops {
 		pos := ""
-		for _, in := range lp.Header.Instrs {
-			if in.Pos().IsValid() {
-				pos = x.Prog.Fset.Position(in.Pos()).String()
-				break
+		best := token.NoPos
+		for b := range lp.Blocks {
+			for _, in := range b.Instrs {
+				if in.Pos().IsValid() && (best == token.NoPos || in.Pos() < best) {
+					best = in.Pos()
+				}
 			}
+		}
+		if best.IsValid() {
+			pos = "first instruction at " + x.Prog.Fset.Position(best).String()
 		}
 		out = append(out, fmt.Sprintf("loop %d\theader block %d\t%s", lp.Ordinal, lp.Header.Index, pos))
 	}
